@@ -5,7 +5,7 @@
    float32 / byte words, all attributes of one length, indices below it) — no bound on the number of
    models, vertices, attributes, repeated pointers, materials, instances or lights. *)
 From PF Require Import Base.Bytes Formats.Gltf Formats.GltfProofs Formats.GltfExtProofs Formats.GltfDedupProofs
-  Formats.GltfNodeProofs Formats.GltfTexProofs Formats.GltfGlbProofs.
+  Formats.GltfNodeProofs Formats.GltfTexProofs Formats.GltfGlbProofs Formats.GltfFinalProofs.
 From Coq Require String.
 Import String.StringSyntax.
 Delimit Scope string_scope with string.
@@ -239,6 +239,70 @@ Print Assumptions glb_declared_is_actual.
 Theorem gltf_valid_model_partial : forall sc, scene_ok sc -> scene_ptr_ok sc -> doc_valid sc.
 Proof. exact model_doc_valid. Qed.
 Print Assumptions gltf_valid_model_partial.
+
+(* ---- round 4 *)
+(* the bounds the writer computes on the (run-length) attribute are the bounds of the expanded data, i.e. of
+   what a reader decodes from the buffer: with [payload_is_image] the checker's recomputation agrees *)
+Theorem minmax_matches_stored : forall c k d, minmax_of c k (expand d) = minmax_of c k (run_elems d).
+Proof. exact minmax_expand. Qed.
+Print Assumptions minmax_matches_stored.
+
+(* the whole extension clause of the checker (inclusions AND absence of duplicates in extensionsUsed /
+   extensionsRequired), in the checker's own boolean form *)
+Theorem ext_ok_holds : forall sc, ext_ok (to_summary (run sc)) = true.
+Proof. exact ext_ok_run. Qed.
+Print Assumptions ext_ok_holds.
+
+(* the text container.  base64 is abstract: ANY encoder / decoder pair with the round-trip property.
+   buffers[0] = { byteLength = bytes written, uri = "data:application/octet-stream;base64," ++ base64 buffer };
+   an independent reader (strip the prefix, decode) gets exactly the payload, whose length is byteLength *)
+Theorem text_container_carries_buffer :
+  forall (b64enc : list N -> list N) (b64dec : list N -> option (list N)),
+  (forall l, bytes_ok l -> b64dec (b64enc l) = Some l) ->
+  forall sc, scene_ok sc ->
+  match text_buffers b64enc (run sc) with
+  | [(n, u)] => read_uri b64dec u = Some (buf (run sc)) /\ n = len (buf (run sc)) /\ 0 < n
+  | [] => buf (run sc) = []
+  | _ => False
+  end.
+Proof. exact text_payload. Qed.
+Print Assumptions text_container_carries_buffer.
+
+(* GLB and text container carry the same payload: the BIN chunk up to byteLength is the decoded data URI,
+   the rest of the chunk is zero padding; neither has a buffer when nothing was written *)
+Theorem containers_same_payload :
+  forall (b64enc : list N -> list N) (b64dec : list N -> option (list N)),
+  (forall l, bytes_ok l -> b64dec (b64enc l) = Some l) ->
+  forall sc json, scene_ok sc -> glb_total (len json) (len (buf (run sc))) < 4294967296 ->
+  match text_buffers b64enc (run sc) with
+  | [(n, u)] => exists j b, glb_parse (glb_frame json (buf (run sc))) = Some (j, Some b) /\
+                            read_uri b64dec u = Some (firstn (N.to_nat n) b) /\
+                            skipn (N.to_nat n) b = repeat 0 (N.to_nat (pad4 n))
+  | [] => exists j, glb_parse (glb_frame json (buf (run sc))) = Some (j, None)
+  | _ => False
+  end.
+Proof. exact glb_text_same_payload. Qed.
+Print Assumptions containers_same_payload.
+
+(* the boolean glue, first half: [gltf_check = gltf_check_struct ++ gltf_check_models]; the struct half
+   (buffer-count, buffer-length, payload-length, view-out-of-buffer, view-overlap, accessor-out-of-view,
+   minmax-mismatch, extension-undeclared, node-count, light-node, light-content, light-root-extension,
+   scene-roots, duplicate-entry, dangling-index of textures) — exactly what [prop_ok] evaluates on the
+   implementation's .gltf — returns no key on the model's document, for every well-formed scene *)
+Theorem gltf_valid_model_struct : forall sc, scene_ok sc -> scene_ptr_ok sc ->
+  gltf_check_struct sc (obs_text sc) = [].
+Proof. exact check_struct_run. Qed.
+Print Assumptions gltf_valid_model_struct.
+
+(* the models half cannot be proved as it stands: "material-content" is FALSE of the faithful model (and of
+   the code: fixes/C06-texture-equal-ignores-extensions): PolyformTexture.equal ignores texture
+   extensions, so two materials differing only there are merged *)
+Theorem material_content_refuted :
+  exists sc, scene_ok sc /\ scene_ptr_ok sc /\ scene_rejected sc = false /\
+             gltf_check_struct sc (obs_text sc) = [] /\
+             In "material-content"%string (gltf_check_models sc (obs_text sc)) /\ gltf_validb sc (obs_text sc) = false.
+Proof. exact material_content_refuted_witness. Qed.
+Print Assumptions material_content_refuted.
 
 (* component alignment is FALSE of the faithful model (and of the code: known finding
    gltf:unaligned-view): a well-formed scene whose document has a FLOAT accessor at byte offset 42 *)
